@@ -62,8 +62,6 @@ def gen_cases(rng, tier, scale):
     k = 0
     for kind in KINDS:
         for tl, tr in ((False, False), (True, False), (False, True), (True, True)):
-            if kind == 'elsechain' and tl:
-                continue          # `{{~else if` panics the parser: finding F1 (property C04)
             if kind in ('comment', 'comment2') and (tl or tr):
                 continue          # the grammar gives comment tags no `~` markers (a ~ there is comment text)
             for L in LEFT:
@@ -161,16 +159,3 @@ import re as _re
 def known_F13_lone_cr(c, mo, io):
     return bool(_re.search(r'\r(?!\n)', c['tpl']))
 
-def known_F8_trailing_blanks_eof(c, mo, io):
-    # a standalone-capable tag followed only by spaces/tabs up to the end of the template
-    return bool(_re.search(r'\}\}[ \t]+$', c['tpl']))
-
-def known_F11_tilde_then_comment(c, mo, io):
-    # a `~}}` whose flag survives to a later comment (no other tag in between): the text after the
-    # comment loses its leading whitespace as well
-    return bool(_re.search(r'~\}\}(?:(?!\{\{(?!!)).)*?\{\{!', c['tpl'], _re.S))
-
-def known_F14_stale_trim_line(c, mo, io):
-    # a standalone tag ending in ~}} followed (after whitespace only) by another tag: the standalone
-    # flag is not consumed and strips the line break after that next tag instead
-    return bool(_re.search(r'~\}\}\s*\{\{', c['tpl']))
